@@ -196,7 +196,13 @@ def run(
         tail = "\n".join(
             [ln for ln in text.splitlines() if not ln.startswith(("Parsing file", "Semantic processing", "Linting of"))][-40:]
         )
-        raise TLCError("TLC failed (rc=%s): %s\n%s" % (proc.returncode, res.cmd, tail))
+        dump = os.path.join(tempfile.gettempdir(), "cinco-tlc-failure-%d.log" % os.getpid())
+        try:
+            with open(dump, "w") as fp:
+                fp.write(out[-2000000:])
+        except OSError:
+            dump = "<not written>"
+        raise TLCError("TLC failed (rc=%s): %s\n%s\n(full output: %s)" % (proc.returncode, res.cmd, tail, dump))
     if simulate is None and res.generated == 0 and res.violation is None:
         raise TLCError("TLC reported no states: %s\n%s" % (res.cmd, text[-2000:]))
     return res
